@@ -95,7 +95,8 @@ def ItemStep (ρ : Nat → Res) (st st1 : St) (itf itf1 : Interface) (i : Item) 
   Grow st.types st1.types ∧ st1.root = st.root ∧ itf1.id = itf.id ∧
   ∀ (container : Str) (ifaces : List (Str × List (Str × Tree))) (s s1 : Scope) (out : List (Str × Tree)),
     denoteItem container ifaces s i = some (s1, out) →
-    ∃ newR : List Nat, s1.next = s.next + newR.length ∧
+    ∃ newR : List Nat, s1.next = s.next + newR.length ∧ newR.Pairwise (· < ·) ∧
+      (∀ x ∈ newR, st.types.resources.length ≤ x ∧ x < st1.types.resources.length) ∧
       ∀ (RL : List Nat) (acc : List (Str × Tree)), RL.length = s.next → ConsE ρ (RL ++ newR) st1.types →
         RootSim ρ st.types st.root ifaces → Sim ρ st.types st.scope s.binds →
         ExpRel ρ st.types itf.exports acc → ((acc ++ out).map (·.1)).Nodup →
@@ -111,7 +112,7 @@ theorem ifaceStep_ok {st st1 : St} {itf itf1 : Interface} {i : Item}
     obtain ⟨g1, rt1, k1⟩ := itemTypeDecl_ok (ρ := ρ) hvd hd
     refine ⟨g1, rt1, rfl, ?_⟩
     intro container ifaces s s1 out hden
-    refine ⟨[], by simp [denoteItem_next_value hvd hden], ?_⟩
+    refine ⟨[], by simp [denoteItem_next_value hvd hden], List.Pairwise.nil, by simp, ?_⟩
     intro RL acc _ _ _ hsim hexp hnd
     have hfresh : ∀ x ∈ out, alGet itf.exports x.1 = none := by
       intro x hx
@@ -136,7 +137,7 @@ theorem ifaceStep_ok {st st1 : St} {itf itf1 : Interface} {i : Item}
       obtain ⟨ht, hr, k⟩ := useType_ok (ρ := ρ) hu
       refine ⟨by rw [ht]; exact Grow.refl _, hr, rfl, ?_⟩
       intro container ifaces s s1 out hden
-      refine ⟨[], ?_, ?_⟩
+      refine ⟨[], ?_, List.Pairwise.nil, by simp, ?_⟩
       · -- `use` declares no resource: read off `useType_ok` under trivial hypotheses is not possible;
         -- the specification fold keeps `next`
         simp only [denoteItem] at hden
@@ -175,7 +176,7 @@ theorem ifaceStep_ok {st st1 : St} {itf itf1 : Interface} {i : Item}
         simp only [denoteItem] at hden
         obtain ⟨t, ht, hso⟩ := Option.map_eq_some_iff.mp hden
         cases hso
-        refine ⟨[], by simp, ?_⟩
+        refine ⟨[], by simp, List.Pairwise.nil, by simp, ?_⟩
         intro RL acc _ _ _ hsim hexp _
         have hfr := k1 s hsim [] none t rfl (ForcedOk_free _ _ _) ht
         have hins : alInsert itf.exports n (.func f) = itf.exports ++ [(n, .func f)] :=
@@ -190,11 +191,12 @@ theorem ifaceStep_ok {st st1 : St} {itf itf1 : Interface} {i : Item}
     split at h
     · rename_i st2 exports hd
       cases h
-      obtain ⟨g1, rt1, k1⟩ := resourceDecl_ok (ρ := ρ) hd
+      obtain ⟨g1, rt1, hlen, k1⟩ := resourceDecl_ok (ρ := ρ) hd
       refine ⟨g1, rt1, rfl, ?_⟩
       intro container ifaces s s1 out hden
       obtain ⟨hnext, k⟩ := k1 container ifaces s s1 out hden
-      refine ⟨[st.types.resources.length], by simp [hnext], ?_⟩
+      refine ⟨[st.types.resources.length], by simp [hnext], List.pairwise_singleton _ _,
+        by intro x hx; simp at hx; subst hx; exact ⟨Nat.le_refl _, hlen⟩, ?_⟩
       intro RL acc hRL hcons _ hsim hexp hnd
       exact k RL hRL hcons hsim acc hexp hnd
     · cases h
